@@ -58,8 +58,20 @@ def deep_fp(ir, seen=None):
     return h.hexdigest()[:16]
 
 
+def _safe_str(p):
+    try:
+        return str(p)
+    except Exception as e:
+        return f"<unprintable: {type(e).__name__}>"
+
+
 def proc_fp(p, with_c=False):
-    fp = deep_fp(p.INTERNAL_proc()) + ":" + hashlib.sha1(str(p).encode()).hexdigest()[:10]
+    # (a procedure that can no longer be printed is an observation too, not a failure of the recorder)
+    try:
+        txt = hashlib.sha1(str(p).encode()).hexdigest()[:10]
+    except Exception as e:
+        txt = "E" + type(e).__name__
+    fp = deep_fp(p.INTERNAL_proc()) + ":" + txt
     if with_c:
         try:
             fp += ":" + hashlib.sha1(p.c_code_str().encode()).hexdigest()[:10]
@@ -156,7 +168,7 @@ def _job(job, emit):
             if len(procs) > job["maxprocs"]:
                 break
         emit("rec", {"prog": prog, "session": sidx, "trace": trace, "meta": meta,
-                     "texts": [str(p) for p in procs[:1]]})
+                     "texts": [_safe_str(p) for p in procs[:1]]})
     # systematic sweep: every candidate of the grid applied once to the source procedure itself
     if job.get("sweep"):
         emit("begin", "sweep")
@@ -194,7 +206,7 @@ def _job(job, emit):
             trace["events"].append({"op": c.op, "ok": False, "fps": [proc_fp(p0, True)],
                                     "cfps": [cursor_fp(x) for x in cursors]})
             meta.append({"op": c.op, "args": c.args, "ok": ok, "exc": exc, "on": 1})
-        emit("rec", {"prog": prog, "session": "sweep", "trace": trace, "meta": meta, "texts": [str(p0)]})
+        emit("rec", {"prog": prog, "session": "sweep", "trace": trace, "meta": meta, "texts": [_safe_str(p0)]})
 
 
 def run(modules, seed, sessions, length, maxprocs=14, select=None, sweep=0):
